@@ -124,6 +124,8 @@ def main():
         for u in r["undecided"]:
             undecided_paths.append(dict(contract=r["contract"], **u))
         for o in r["obligations"]:
+            if o.get("props") and pid not in o["props"]:
+                continue      # clause belongs to other properties of the same contract
             e = obl.setdefault(o["name"], dict(status="proved", paths=0, ms=0.0, backends=set(), detail=o["detail"], top=o["top"],
                                                failures=[], kind=o["kind"], contract=r["contract"]))
             e["paths"] += 1
@@ -165,8 +167,11 @@ def main():
     hmod = cfg.get("harness")
     if hmod:
         try:
-            H = importlib.import_module(hmod)
-            bounded = H.run(tier=tier, seed=seed)
+            if ":" in hmod:
+                hm, harg = hmod.split(":", 1)
+                bounded = importlib.import_module(hm).run_for(harg, tier=tier, seed=seed)
+            else:
+                bounded = importlib.import_module(hmod).run(tier=tier, seed=seed)
         except Exception as ex:   # noqa
             errors.append("harness %s: %r\n%s" % (hmod, ex, traceback.format_exc()))
 
